@@ -577,6 +577,7 @@ func (e *Env) Close() { _ = e.Raw.Close() }
 
 // Script is a settlement.Interface whose answers are set by the harness before every call.
 type Script struct {
+	retrSeen, retrCopy *big.Int // value last handed out by RetrieveTraffic (the pointer itself) and a copy of it at that time
 	mu        sync.Mutex
 	Retrieve  *big.Int // RetrieveTraffic answer; nil = error
 	Transfer  *big.Int // TransferTraffic answer; nil = error
@@ -623,6 +624,16 @@ type Call struct {
 	Amount *big.Int
 }
 
+// CheckShared reports whether the value handed out by RetrieveTraffic was changed behind the script's back.
+func (s *Script) CheckShared() (was, is *big.Int, mutated bool) {
+	s.mu.Lock()
+	defer s.mu.Unlock()
+	if s.retrSeen != nil && s.retrCopy != nil && s.retrSeen.Cmp(s.retrCopy) != 0 {
+		return cp(s.retrCopy), cp(s.retrSeen), true
+	}
+	return nil, nil, false
+}
+
 func NewScript() *Script { return &Script{payCh: make(chan boson.Address, 4096)} }
 
 var errScript = errors.New("scripted error")
@@ -656,7 +667,13 @@ func (s *Script) TransferTraffic(peer boson.Address) (*big.Int, error) {
 func (s *Script) RetrieveTraffic(peer boson.Address) (*big.Int, error) {
 	s.mu.Lock()
 	s.rec("RetrieveTraffic", peer, nil)
-	ans := cp(s.Retrieve)
+	// the scripted value itself, not a copy: a settlement layer may hand out its own *big.Int (or one value to
+	// several peers), so an accounting layer that updated its balances in place would corrupt the backend's value
+	// and make the balances of different peers alias; CheckShared() notices the former, the model run the latter
+	ans := s.Retrieve
+	if ans != nil && (s.retrSeen == nil || s.retrSeen != ans) {
+		s.retrSeen, s.retrCopy = ans, cp(ans)
+	}
 	var hc *HeldCall
 	if s.hold {
 		hc = &HeldCall{Tag: goroutineID(), rel: make(chan struct{})}
